@@ -141,8 +141,10 @@ for _p in ["C08", "C09", "C11", "C13"]:
     PROPS[_p] = {"level": "model_checking", "conc": True, "assumptions": _A}
 PROPS["C18"] = {"level": "fault_enumeration", "conc": True, "assumptions": _A + ["panics of RefCnt::inc/clone of third-party pointer types are out of scope"]}
 PROPS["C16"] = {"level": "exploration", "conc": True, "assumptions": _A}
-CONC_PLAN["quick"] += [("panic_help", 400), ("help2w", 2500), ("aba", 500), ("adv", 150), ("solo", 1500), ("solo2c", 300)]
-CONC_PLAN["thorough"] += [("panic_help", 4000), ("help2w", 40000), ("aba", 5000), ("adv", 1500), ("solo", 20000), ("solo2c", 3000)]
+PROPS["C17"] = {"level": "exploration", "conc": True, "assumptions": _A + ["projection chains: container, Map (static), Box<dyn DynAccess>, Map of Map, AccessConvert, ArcSwapAny::map over a reference"]}
+NONTRIVIAL["C17"] = ("distinct executions in which a projection guard is dereferenced after a write", lambda evs: _has(evs, lambda e: e["e"] == "deref" and e.get("k") == "p") and _has(evs, lambda e: e["e"] == "w"))
+CONC_PLAN["quick"] += [("panic_help", 400), ("help2w", 2500), ("aba", 500), ("adv", 150), ("solo", 1500), ("solo2c", 300), ("access", 600)]
+CONC_PLAN["thorough"] += [("panic_help", 4000), ("help2w", 40000), ("aba", 5000), ("adv", 1500), ("solo", 20000), ("solo2c", 3000), ("access", 6000)]
 
 NOT_APPLICABLE = {}
 MANIFEST_TEXT = {
